@@ -352,7 +352,8 @@ func c05Property(t *rapid.T) {
 				if !safeIDRe.MatchString(id) {
 					t.Fatalf("generated identifier %q contains characters outside the identifier-safe alphabet", id)
 				}
-			} else {
+			} else if id != "DOCUMENT" && id != "SPDXRef-DOCUMENT" {
+				// (the document element is declared by every SPDX document: a node standing for it invents nothing)
 				t.Fatalf("SPDX parse produced node %q that the input does not declare\n%s", id, trunc(string(base), 2000))
 			}
 		}
